@@ -603,7 +603,7 @@ fn main() {
 	let n_hist: u64 = run.tier.pick(16, 160);
 	if let Some((shard, n)) = run.worker_shard() {
 		init_thread(true);
-		let deadline = run.tier.pick(100.0, 700.0);
+		let deadline = run.tier.pick(240.0, 900.0);
 		chain_part(&run, shard, n, n_hist, deadline * 0.5);
 		tx_part(&run, shard, n, n_shapes, deadline);
 		run.finish_worker();
